@@ -1,12 +1,583 @@
-//! C16 — monitor not built yet (stub so that the registry is complete).
+//! C16 — call-site checkers report exactly the specified call sites.
+//!
+//! Monitor shape: the real check modules CWE676 / CWE782 / CWE426 / CWE332 are run through their
+//! public entry `CWE_MODULE.run` on an `AnalysisResults` built as the CLI builds it (normalized
+//! project + `graph::get_program_cfg`), on random programs with random import tables, call sites
+//! and configurations. The oracle is a direct scan over the (normalized) program, written from the
+//! property statement; the multisets of identifying warning fields are compared.
+
 use crate::core::*;
+use crate::irb::*;
+use crate::prng::Rng;
+use cwe_checker_lib::analysis::graph;
+use cwe_checker_lib::intermediate_representation::*;
+use cwe_checker_lib::utils::log::CweWarning;
+use cwe_checker_lib::pipeline::AnalysisResults;
+use serde_json::{json, Value};
+use std::collections::{BTreeMap, BTreeSet};
+
+
+/// Report a violation, building detail and case only if it would replace the stored witness of its signature.
+macro_rules! viol {
+    ($rep:expr, $sig:expr, $size:expr, $detail:expr, $case:expr) => {{
+        let sig: String = $sig.into();
+        let keep = match $rep.violations.get(&sig) {
+            Some(old) => old.size > $size,
+            None => true,
+        };
+        if keep {
+            $rep.violation(sig, None, $detail, $case, $size);
+        } else {
+            $rep.violation_count += 1;
+        }
+    }};
+}
 
 pub fn info() -> CheckInfo {
     CheckInfo {
         id: "C16",
-        rule: "(monitor not built yet)",
-        assumptions: &[],
-        run: |_cfg| Report::new(),
-        replay: |_cfg, _case| Report::new(),
+        rule: "random x86-64-style programs (1..5 functions, 1..7 blocks each; branches, conditional branches, indirect jumps, returns, dead ends, extern/internal/indirect calls with and without return site, calls as second jump after a conditional branch, several calls per function, functions without calls, equal function names, functions named like dangerous symbols, two terms at one address) with a random import table (names from the shipped lists of CWE676/CWE426/CWE332 + ioctl/system + near-miss decoys such as strcpy_s, system2, _ioctl, srandom) are normalized (basic; basic+optimize in half of the cases) and given, with random configurations (subsets of shipped lists, decoys, duplicates, empty lists, extra keys), to CWE676/CWE782/CWE426/CWE332 via CWE_MODULE.run; the warning multisets (check name, addresses, tids, symbols, `other`; for CWE332 the configured pair named in the message) are compared with a direct scan of the program. non-trivial = at least one warning is expected and the program contains at least one call that must not be reported by any of the four checks; distinct = hash of (program, configurations)",
+        assumptions: &[
+            "names in the import table are unique and every extern symbol is stored under its own tid (as the extractor emits them); programs with duplicated import names are driven too but a divergence there is only counted as an observation",
+            "the program judged is the normalized one the check modules receive (normalize_basic, plus normalize_optimize in half of the cases), as in the CLI pipeline",
+            "CWE332 warnings carry the pair only in the description: the names of configured symbols occurring as whitespace-separated words are extracted, nothing else of the text is compared; configured names contain no whitespace",
+            "a configuration listing the same pair twice is expected to yield the warning twice (one per configured pair entry); a symbol listed twice in a symbol list counts once",
+        ],
+        run,
+        replay,
     }
+}
+
+// ---------------------------------------------------------------------------
+// Name pools
+
+pub const L676: &[&str] = &[
+    "alloca", "_alloca", "scanf", "wscanf", "sscanf", "swscanf", "vscanf", "vsscanf", "strlen", "wcslen", "strtok", "strtok_r", "wcstok", "strcat", "strncat", "wcscat", "wcsncat", "strcpy", "strncpy", "wcscpy", "wcsncpy", "stpcpy", "stpncpy", "wcpcpy", "wcpncpy", "memcpy", "wmemcpy", "memmove", "wmemmove", "memcmp", "wmemcmp", "memset", "wmemset", "gets", "sprintf", "vsprintf", "swprintf", "vswprintf", "snprintf", "vsnprintf", "realpath", "getwd", "wctomb", "wcrtomb", "wcstombs", "wcsrtombs", "wcsnrtombs",
+];
+pub const L426: &[&str] = &["setresgid", "setresuid", "setuid", "setgid", "seteuid", "setegid"];
+pub const SPECIAL: &[&str] = &["system", "ioctl", "srand", "rand"];
+pub const DECOYS: &[&str] = &[
+    "strcpy_s", "system2", "_ioctl", "ioctl_", "ioctl64", "srandom", "random", "rand_r", "xstrcpy", "Strcpy", "STRCPY", "strcp", "trcpy", "memcpy_chk", "__memcpy_chk", "setuid2", "_setuid", "setreuid", "psystem", "System", "sys", "printf", "malloc", "free", "exit", "puts", "open", "access", "chroot", "chdir", "srand48", "arc4random", "get", "s", "",
+];
+
+fn all_names() -> Vec<&'static str> {
+    let mut v: Vec<&str> = Vec::new();
+    v.extend_from_slice(L676);
+    v.extend_from_slice(L426);
+    v.extend_from_slice(SPECIAL);
+    v.extend_from_slice(DECOYS);
+    v
+}
+
+// ---------------------------------------------------------------------------
+// Generator
+
+struct Ids {
+    n: u32,
+    last_addr: u32,
+}
+impl Ids {
+    fn fresh(&mut self, rng: &mut Rng, prefix: &str) -> Tid {
+        self.n += 1;
+        // two terms at the same address now and then (several terms of one instruction)
+        if !(self.last_addr != 0 && rng.chance(1, 8)) {
+            self.last_addr = 0x401000 + self.n * 3 + rng.below(3) as u32;
+        }
+        tid(&format!("{prefix}_{:08x}_{}", self.last_addr, self.n), &format!("{:08x}", self.last_addr))
+    }
+}
+
+/// Generated case: the normalized project and the four configurations.
+pub struct Case {
+    pub project: Project,
+    pub configs: Value,
+    pub dup_names: bool,
+}
+
+fn pick_names(rng: &mut Rng, table: &[String], pool: &[&'static str], n_table: usize, n_pool: usize) -> Vec<String> {
+    let mut v: Vec<String> = Vec::new();
+    for _ in 0..n_table {
+        if !table.is_empty() {
+            v.push(rng.pick(table).clone());
+        }
+    }
+    for _ in 0..n_pool {
+        v.push(rng.pick(pool).to_string());
+    }
+    rng.shuffle(&mut v);
+    v
+}
+
+pub fn gen_case(rng: &mut Rng) -> Case {
+    let pool = all_names();
+    // ---- import table
+    let mut names: Vec<String> = Vec::new();
+    for s in SPECIAL {
+        if rng.chance(3, 5) {
+            names.push(s.to_string());
+        }
+    }
+    let n_extra = rng.range_usize(0, 9);
+    for _ in 0..n_extra {
+        let n = match rng.below(4) {
+            0 => rng.pick(L676).to_string(),
+            1 => rng.pick(L426).to_string(),
+            2 => rng.pick(DECOYS).to_string(),
+            _ => rng.pick(&pool).to_string(),
+        };
+        names.push(n);
+    }
+    let dup_names = rng.chance(1, 16);
+    if !dup_names {
+        let mut seen = BTreeSet::new();
+        names.retain(|n| seen.insert(n.clone()));
+    } else if !names.is_empty() {
+        let n = rng.pick(&names).clone();
+        names.push(n);
+    }
+    rng.shuffle(&mut names);
+    let mut ids = Ids { n: 0, last_addr: 0 };
+    let mut externs = Vec::new();
+    let mut ext_tids: Vec<Tid> = Vec::new();
+    for (i, n) in names.iter().enumerate() {
+        // extern tids: id unrelated to the order of names (the maps are ordered by tid)
+        let t = tid(&format!("sub_ext_{:03}_{}", rng.below(1000), i), &format!("{:08x}", 0x500000 + i * 16));
+        let no_return = n == "exit" || rng.chance(1, 20);
+        externs.push(extern_symbol(n, t.clone(), &["RDI"], Some("RAX"), no_return));
+        ext_tids.push(t);
+    }
+    // ---- functions
+    let n_subs = rng.range_usize(1, 5);
+    let mut sub_names: Vec<String> = Vec::new();
+    for i in 0..n_subs {
+        let name = match rng.below(10) {
+            0 if i > 0 => sub_names[rng.usize_below(i)].clone(), // same name as another function
+            1 => rng.pick(&["system", "ioctl", "strcpy", "setuid", "rand"]).to_string(), // internal function named like a symbol
+            2 if !names.is_empty() => rng.pick(&names).clone(),
+            _ => format!("fn_{i}"),
+        };
+        sub_names.push(name);
+    }
+    let sub_tids: Vec<Tid> = (0..n_subs).map(|i| tid(&format!("sub_{:08x}", 0x400000 + i * 0x100), &format!("{:08x}", 0x400000 + i * 0x100))).collect();
+    let blk_counts: Vec<usize> = (0..n_subs).map(|_| rng.range_usize(1, 7)).collect();
+    let blk_tids: Vec<Vec<Tid>> = (0..n_subs)
+        .map(|s| (0..blk_counts[s]).map(|b| tid(&format!("blk_{:08x}", 0x400000 + s * 0x100 + b * 8), &format!("{:08x}", 0x400000 + s * 0x100 + b * 8))).collect())
+        .collect();
+    // call density profile of the program / of a function
+    let mut subs = Vec::new();
+    for s in 0..n_subs {
+        let call_heavy = rng.below(4); // 0: no calls at all in this function
+        let mut blocks = Vec::new();
+        for b in 0..blk_counts[s] {
+            let n = blk_counts[s];
+            let mut defs = Vec::new();
+            for _ in 0..rng.below(3) {
+                defs.push(assign(ids.fresh(rng, "instr"), reg(*rng.pick(&["RAX", "RDI", "RSI"])), e_const(rng.below(100) as i64, 8)));
+            }
+            let target = |rng: &mut Rng| -> Tid {
+                if rng.chance(1, 24) {
+                    // jump into another function (normalization duplicates the block)
+                    let o = rng.usize_below(n_subs);
+                    blk_tids[o][rng.usize_below(blk_counts[o])].clone()
+                } else if b + 1 < n && rng.chance(2, 3) {
+                    blk_tids[s][rng.range_usize(b + 1, n - 1)].clone()
+                } else {
+                    blk_tids[s][rng.usize_below(n)].clone()
+                }
+            };
+            let ret_site = |rng: &mut Rng, p_none: u64| -> Option<Tid> {
+                if rng.chance(p_none, 8) {
+                    None
+                } else {
+                    Some(target(rng))
+                }
+            };
+            let mut jmps = Vec::new();
+            let want_call = call_heavy > 0 && rng.chance(call_heavy + 1, 6);
+            if want_call {
+                if rng.chance(1, 8) {
+                    jmps.push(jmp(ids.fresh(rng, "instr"), Jmp::CBranch { target: target(rng), condition: e_var(&var("ZF", 1)) }));
+                }
+                match rng.below(10) {
+                    0 => {
+                        let t = sub_tids[rng.usize_below(n_subs)].clone();
+                        let r = ret_site(rng, 1);
+                        jmps.push(jmp(ids.fresh(rng, "instr"), Jmp::Call { target: t, return_: r }));
+                    }
+                    1 => {
+                        let r = ret_site(rng, 1);
+                        jmps.push(jmp(ids.fresh(rng, "instr"), Jmp::CallInd { target: e_reg("RAX"), return_: r }));
+                    }
+                    _ if !ext_tids.is_empty() => {
+                        let t = rng.pick(&ext_tids).clone();
+                        let r = ret_site(rng, 2);
+                        jmps.push(jmp(ids.fresh(rng, "instr"), Jmp::Call { target: t, return_: r }));
+                    }
+                    _ => jmps.push(jmp(ids.fresh(rng, "instr"), Jmp::Return(e_reg("RAX")))),
+                }
+            } else {
+                match rng.below(10) {
+                    0..=2 => jmps.push(jmp(ids.fresh(rng, "instr"), Jmp::Branch(target(rng)))),
+                    3..=5 => {
+                        jmps.push(jmp(ids.fresh(rng, "instr"), Jmp::CBranch { target: target(rng), condition: e_var(&var("ZF", 1)) }));
+                        jmps.push(jmp(ids.fresh(rng, "instr"), Jmp::Branch(target(rng))));
+                    }
+                    6 => jmps.push(jmp(ids.fresh(rng, "instr"), Jmp::BranchInd(e_reg("RAX")))),
+                    7 if rng.chance(1, 3) => (), // dead end
+                    _ => jmps.push(jmp(ids.fresh(rng, "instr"), Jmp::Return(e_reg("RAX")))),
+                }
+            }
+            let mut block = blk(blk_tids[s][b].clone(), defs, jmps);
+            if matches!(block.term.jmps.last().map(|j| &j.term), Some(Jmp::BranchInd(_))) {
+                for _ in 0..rng.below(3) {
+                    block.term.indirect_jmp_targets.push(blk_tids[s][rng.usize_below(n)].clone());
+                }
+            }
+            blocks.push(block);
+        }
+        subs.push(sub(sub_tids[s].clone(), &sub_names[s], blocks));
+    }
+    let mut project = project_x64(program(subs, externs, Some(sub_tids[0].clone())));
+    let _ = project.normalize_basic();
+    if rng.bool() {
+        let _ = project.normalize_optimize();
+    }
+    // ---- configurations
+    let c676: Vec<String> = match rng.below(8) {
+        0 => Vec::new(),
+        1 => L676.iter().map(|s| s.to_string()).collect(),
+        _ => {
+            let (a, b) = (rng.range_usize(0, 4), rng.range_usize(0, 8));
+            pick_names(rng, &names, &pool, a, b)
+        }
+    };
+    let c426: Vec<String> = match rng.below(8) {
+        0 => Vec::new(),
+        1 => L426.iter().map(|s| s.to_string()).collect(),
+        _ => {
+            let (a, b) = (rng.range_usize(0, 3), rng.range_usize(0, 5));
+            pick_names(rng, &names, &pool, a, b)
+        }
+    };
+    let mut c332: Vec<(String, String)> = Vec::new();
+    if rng.chance(1, 4) {
+        c332.push(("srand".into(), "rand".into()));
+    }
+    for _ in 0..rng.below(4) {
+        let a = pick_names(rng, &names, &pool, 1, 1);
+        let b = pick_names(rng, &names, &pool, 1, 1);
+        c332.push((a[0].clone(), b[0].clone()));
+    }
+    if !c332.is_empty() && rng.chance(1, 10) {
+        let p = rng.pick(&c332).clone();
+        c332.push(p);
+    }
+    // names with whitespace or empty cannot be recognised in the CWE332 message: keep them out of the pairs
+    c332.retain(|(a, b)| !a.is_empty() && !b.is_empty());
+    let configs = json!({
+        "CWE676": {"_comment": "generated", "symbols": c676},
+        "CWE782": if rng.bool() { json!({"symbols": []}) } else { Value::Null },
+        "CWE426": {"symbols": c426, "_comment": "generated"},
+        "CWE332": {"pairs": c332},
+    });
+    Case { project, configs, dup_names }
+}
+
+// ---------------------------------------------------------------------------
+// Oracle: direct scan
+
+/// Canonical rendering of the identifying fields of one warning.
+type Key = (String, Vec<String>, Vec<String>, Vec<String>, Vec<Vec<String>>);
+
+fn strings(v: &Value, key: &str) -> Vec<String> {
+    v[key].as_array().map(|a| a.iter().filter_map(|s| s.as_str().map(|s| s.to_string())).collect()).unwrap_or_default()
+}
+
+pub struct Expected {
+    pub per_check: BTreeMap<&'static str, Vec<Key>>,
+    /// number of call jumps in the program that no check may report
+    pub silent_calls: usize,
+}
+
+/// All direct calls of the program: (sub, jump tid, name of the imported symbol called, if any).
+fn direct_calls(project: &Project) -> Vec<(&Term<Sub>, &Tid, Option<&str>)> {
+    let prog = &project.program.term;
+    let mut out = Vec::new();
+    for sub in prog.subs.values() {
+        for blk in &sub.term.blocks {
+            for j in &blk.term.jmps {
+                match &j.term {
+                    Jmp::Call { target, .. } => {
+                        // imported symbol = an entry of the import table whose tid is the call target
+                        let name = prog.extern_symbols.values().find(|e| &e.tid == target).map(|e| e.name.as_str());
+                        out.push((sub, &j.tid, name));
+                    }
+                    Jmp::CallInd { .. } => out.push((sub, &j.tid, None)),
+                    _ => (),
+                }
+            }
+        }
+    }
+    out
+}
+
+pub fn expected(project: &Project, configs: &Value) -> Expected {
+    let prog = &project.program.term;
+    let imported: BTreeSet<&str> = prog.extern_symbols.values().map(|e| e.name.as_str()).collect();
+    let calls = direct_calls(project);
+    let c676: BTreeSet<String> = strings(&configs["CWE676"], "symbols").into_iter().collect();
+    let c426: BTreeSet<String> = strings(&configs["CWE426"], "symbols").into_iter().collect();
+    let mut per_check: BTreeMap<&'static str, Vec<Key>> = BTreeMap::new();
+    let mut reported: BTreeSet<&Tid> = BTreeSet::new();
+    // CWE676: one warning per call to an imported symbol on the list
+    let e676 = per_check.entry("CWE676").or_default();
+    for (sub, jt, name) in &calls {
+        if let Some(n) = name {
+            if c676.contains(*n) {
+                e676.push(("CWE676".into(), vec![jt.address.clone()], vec![format!("{jt}")], vec![sub.term.name.clone()], vec![vec!["dangerous_function".to_string(), n.to_string()]]));
+                reported.insert(jt);
+            }
+        }
+    }
+    // CWE782: one warning per call to ioctl
+    let e782 = per_check.entry("CWE782").or_default();
+    for (sub, jt, name) in &calls {
+        if *name == Some("ioctl") {
+            e782.push(("CWE782".into(), vec![jt.address.clone()], vec![format!("{jt}")], vec![sub.term.name.clone()], vec![]));
+            reported.insert(jt);
+        }
+    }
+    // CWE426: each function that calls both system and a configured (imported) privilege-changing function
+    let e426 = per_check.entry("CWE426").or_default();
+    for sub in prog.subs.values() {
+        let mine: Vec<&str> = calls.iter().filter(|(s, _, _)| s.tid == sub.tid).filter_map(|(_, _, n)| *n).collect();
+        let calls_system = mine.iter().any(|n| *n == "system");
+        let calls_priv = mine.iter().any(|n| c426.contains(*n));
+        if calls_system && calls_priv {
+            e426.push(("CWE426".into(), vec![sub.tid.address.clone()], vec![format!("{}", sub.tid)], vec![sub.term.name.clone()], vec![]));
+            for (s, jt, n) in &calls {
+                if s.tid == sub.tid && n.map(|n| n == "system" || c426.contains(n)).unwrap_or(false) {
+                    reported.insert(jt);
+                }
+            }
+        }
+    }
+    // CWE332: each configured pair whose generator is imported while the initializer is not
+    let e332 = per_check.entry("CWE332").or_default();
+    if let Some(pairs) = configs["CWE332"]["pairs"].as_array() {
+        for p in pairs {
+            let (init, gen) = (p[0].as_str().unwrap_or(""), p[1].as_str().unwrap_or(""));
+            if imported.contains(gen) && !imported.contains(init) {
+                let mut names = vec![init.to_string(), gen.to_string()];
+                names.sort();
+                e332.push(("CWE332".into(), vec![], vec![], names, vec![]));
+            }
+        }
+    }
+    for v in per_check.values_mut() {
+        v.sort();
+    }
+    let silent_calls = calls.iter().filter(|(_, jt, _)| !reported.contains(jt)).count();
+    Expected { per_check, silent_calls }
+}
+
+/// The identifying fields of an observed warning. For CWE332 (no structured fields) the configured
+/// names occurring as words of the message.
+fn observed_key(w: &CweWarning, configs: &Value) -> Key {
+    if w.name == "CWE332" && w.symbols.is_empty() {
+        let mut universe: BTreeSet<String> = BTreeSet::new();
+        if let Some(pairs) = configs["CWE332"]["pairs"].as_array() {
+            for p in pairs {
+                for i in 0..2 {
+                    universe.insert(p[i].as_str().unwrap_or("").to_string());
+                }
+            }
+        }
+        let mut names: Vec<String> = Vec::new();
+        for word in w.description.split_whitespace() {
+            if universe.contains(word) {
+                names.push(word.to_string());
+            }
+        }
+        names.sort();
+        return (w.name.clone(), w.addresses.clone(), w.tids.clone(), names, w.other.clone());
+    }
+    (w.name.clone(), w.addresses.clone(), w.tids.clone(), w.symbols.clone(), w.other.clone())
+}
+
+fn run_module(project: &Project, module: &cwe_checker_lib::CweModule, params: &Value) -> Result<Vec<CweWarning>, String> {
+    guard(|| {
+        let cfg = graph::get_program_cfg(&project.program);
+        let binary: Vec<u8> = Vec::new();
+        let results = AnalysisResults::new(&binary, &cfg, project);
+        let (_logs, warnings) = (module.run)(&results, params);
+        warnings
+    })
+}
+
+fn modules() -> Vec<&'static cwe_checker_lib::CweModule> {
+    use cwe_checker_lib::checkers::*;
+    vec![&cwe_676::CWE_MODULE, &cwe_782::CWE_MODULE, &cwe_426::CWE_MODULE, &cwe_332::CWE_MODULE]
+}
+
+fn diff(exp: &[Key], got: &[Key]) -> (Vec<Key>, Vec<Key>) {
+    // multiset difference
+    let mut missing = Vec::new();
+    let mut got_left: Vec<Key> = got.to_vec();
+    for e in exp {
+        if let Some(p) = got_left.iter().position(|g| g == e) {
+            got_left.remove(p);
+        } else {
+            missing.push(e.clone());
+        }
+    }
+    (missing, got_left)
+}
+
+/// Classify a divergence for the signature: what kind of field disagrees.
+fn classify(missing: &[Key], surplus: &[Key]) -> &'static str {
+    if surplus.is_empty() {
+        "missing-warning"
+    } else if missing.is_empty() {
+        "surplus-warning"
+    } else if missing.len() == surplus.len() {
+        // same number of warnings: some field differs
+        let same = |f: &dyn Fn(&Key) -> String| {
+            let mut a: Vec<String> = missing.iter().map(f).collect();
+            let mut b: Vec<String> = surplus.iter().map(f).collect();
+            a.sort();
+            b.sort();
+            a == b
+        };
+        if !same(&|k| format!("{:?}", k.2)) {
+            "wrong-tid"
+        } else if !same(&|k| format!("{:?}", k.1)) {
+            "wrong-address"
+        } else if !same(&|k| format!("{:?}", k.3)) {
+            "wrong-symbols"
+        } else {
+            "wrong-other"
+        }
+    } else {
+        "different-warnings"
+    }
+}
+
+pub fn check_case(project: &Project, configs: &Value, dup_names: bool, rep: &mut Report) -> bool {
+    let exp = expected(project, configs);
+    let size = project.program.term.subs.values().map(|s| 1 + s.term.blocks.len() as u64).sum::<u64>() + project.program.term.extern_symbols.len() as u64;
+    let case = || json!({"project": project_to_json(project), "configs": configs, "dup_names": dup_names});
+    let mut total_expected = 0usize;
+    for module in modules() {
+        let name = module.name;
+        rep.eval();
+        let e = &exp.per_check[name];
+        total_expected += e.len();
+        match run_module(project, module, &configs[name]) {
+            Err(p) => {
+                if dup_names {
+                    rep.obs(&format!("dup-import-names:{name}:panic"));
+                } else {
+                    viol!(rep, format!("{name}:panic:{}", panic_site(&p)), size, format!("{name} panicked: {p}\nconfig: {}\n{}", configs[name], show_program(&project.program.term)), case());
+                }
+            }
+            Ok(ws) => {
+                let mut got: Vec<Key> = ws.iter().map(|w| observed_key(w, configs)).collect();
+                got.sort();
+                if let Some(w) = ws.iter().find(|w| w.name != name) {
+                    viol!(rep, format!("{name}:wrong-check-name"), size, format!("{name} produced a warning named {}", w.name), case());
+                }
+                if &got != e {
+                    let (missing, surplus) = diff(e, &got);
+                    if dup_names {
+                        rep.obs(&format!("dup-import-names:{name}:differs-from-by-name-scan"));
+                    } else {
+                        viol!(rep, format!("{name}:{}", classify(&missing, &surplus)), size, format!(
+                                "{name} with config {}: expected {} warning(s), observed {}.\n  expected but not reported (name, addresses, tids, symbols, other): {:?}\n  reported but not expected: {:?}\n{}",
+                                configs[name], e.len(), got.len(), missing, surplus, show_program(&project.program.term)
+                            ), case());
+                    }
+                } else {
+                    rep.obs(&format!("{name}:agree:{}", match e.len() { 0 => "0", 1 => "1", 2..=3 => "2-3", _ => "4+" }));
+                }
+            }
+        }
+    }
+    let nontrivial = total_expected > 0 && exp.silent_calls > 0 && !dup_names;
+    if nontrivial {
+        rep.nontrivial(crate::prng::mix(fp_of(&project.program), fp_json(configs)));
+    }
+    nontrivial
+}
+
+fn run(cfg: &Cfg) -> Report {
+    let shards = cfg.tier.pick(128usize, 1024usize);
+    let per_shard = cfg.tier.pick(1000usize, 2000usize);
+    let mut rep = par_shards(cfg, "c16", shards, |idx, rng, rep| {
+        for i in 0..per_shard {
+            let case = match guard(|| gen_case(rng)) {
+                Ok(c) => c,
+                Err(msg) => {
+                    rep.inconclusive(&format!("generator-or-normalization-panic:{}", panic_site(&msg)));
+                    continue;
+                }
+            };
+            let nt = check_case(&case.project, &case.configs, case.dup_names, rep);
+            rep.obs(if case.dup_names { "workload:duplicated-import-names" } else { "workload:main" });
+            if idx == 0 && nt && i < 40 && rep.wants_sample() {
+                let exp = expected(&case.project, &case.configs);
+                rep.sample(json!({"program": show_program(&case.project.program.term), "configs": case.configs, "expected": format!("{:?}", exp.per_check)}));
+            }
+        }
+    });
+    fixed_cases(&mut rep);
+    rep
+}
+
+/// A few hand-written cases (each statement clause once, deterministic).
+fn fixed_cases(rep: &mut Report) {
+    let ext = |n: &str, i: usize| extern_symbol(n, tid(&format!("sub_ext_{n}_{i}"), &format!("ext{i}")), &["RDI"], Some("RAX"), false);
+    let call = |id: &str, target: &ExternSymbol, ret: Option<&str>| jmp(tid(id, &format!("a_{id}")), Jmp::Call { target: target.tid.clone(), return_: ret.map(|r| tid(r, r)) });
+    let (system, setuid, strcpy, strcpy_s, ioctl, rand) = (ext("system", 0), ext("setuid", 1), ext("strcpy", 2), ext("strcpy_s", 3), ext("ioctl", 4), ext("rand", 5));
+    let f = sub(
+        tid("sub_f", "f"),
+        "f",
+        vec![
+            blk(tid("b0", "b0"), vec![], vec![call("c0", &strcpy, Some("b1"))]),
+            blk(tid("b1", "b1"), vec![], vec![call("c1", &strcpy, Some("b2"))]),
+            blk(tid("b2", "b2"), vec![], vec![call("c2", &strcpy_s, Some("b3"))]),
+            blk(tid("b3", "b3"), vec![], vec![call("c3", &system, Some("b4"))]),
+            blk(tid("b4", "b4"), vec![], vec![call("c4", &ioctl, None)]),
+        ],
+    );
+    let g = sub(
+        tid("sub_g", "g"),
+        "g",
+        vec![
+            blk(tid("g0", "g0"), vec![], vec![call("d0", &system, Some("g1"))]),
+            blk(tid("g1", "g1"), vec![], vec![call("d1", &setuid, Some("g2"))]),
+            blk(tid("g2", "g2"), vec![], vec![call("d2", &rand, Some("g3"))]),
+            blk(tid("g3", "g3"), vec![], vec![jmp(tid("d3", "d3"), Jmp::Return(e_reg("RAX")))]),
+        ],
+    );
+    let mut project = project_x64(program(vec![f, g], vec![system, setuid, strcpy, strcpy_s, ioctl, rand], None));
+    let _ = project.normalize_basic();
+    let configs = json!({
+        "CWE676": {"symbols": ["strcpy", "memcpy"]},
+        "CWE782": {"symbols": []},
+        "CWE426": {"symbols": ["setuid", "setgid"]},
+        "CWE332": {"pairs": [["srand", "rand"], ["system", "rand"], ["srand", "random"]]},
+    });
+    check_case(&project, &configs, false, rep);
+}
+
+fn replay(_cfg: &Cfg, case: &Value) -> Report {
+    let mut rep = Report::new();
+    match project_from_json(&case["project"]) {
+        Ok(project) => {
+            check_case(&project, &case["configs"], case["dup_names"].as_bool().unwrap_or(false), &mut rep);
+        }
+        Err(e) => rep.note(format!("cannot parse replay case: {e}")),
+    }
+    rep
 }
